@@ -13,6 +13,7 @@ package h
 import (
 	"encoding/json"
 	"math/rand"
+	"sort"
 	"sync"
 	"testing"
 	"testing/synctest"
@@ -62,6 +63,8 @@ func mkAdvNode(name string) *advNode {
 type advAct struct {
 	Ev   string `json:"ev"`
 	S    int    `json:"s,omitempty"`    // rsync / preply: relative sequence number
+	Face int    `json:"face,omitempty"` // rsync: the face the Sync Interest comes in on (7 or 8)
+	Pasv bool   `json:"pasv,omitempty"` // rsync: under the passive sync prefix
 	Pick int    `json:"pick,omitempty"` // rdata: index into the pool of captured Data; rrib: index into the parked list
 }
 
@@ -79,7 +82,7 @@ type advParked struct {
 func advExec(t *testing.T, w *traceWriter, next func(i int, x *advX) (advAct, bool)) (events int) {
 	synctest.Test(t, func(t *testing.T) {
 		P, R := mkAdvNode("/net/b"), mkAdvNode("/net/a")
-		x := &advX{P: P, R: R, w: w, syncs: map[int][]byte{}, fetches: map[int][][]byte{}, gen: map[*table.NeighborState]int{}}
+		x := &advX{P: P, R: R, w: w, syncs: map[int][]byte{}, syncsP: map[int][]byte{}, nroutes: map[string]map[uint64]bool{}, fetches: map[int][][]byte{}, gen: map[*table.NeighborState]int{}}
 		x.base = P.r.VerifAdvertSeq()
 		dv.VerifGateHook = func(r *dv.Router, site string, arg any) {
 			if r != R.r || site != "ribUpdate" {
@@ -127,8 +130,10 @@ type advX struct {
 	mu      sync.Mutex
 	base    uint64
 	pcont   int
-	syncs   map[int][]byte   // relative seq -> a Sync Interest of P announcing it (active prefix)
-	fetches map[int][][]byte // relative seq -> fetch Interests of R captured
+	syncs   map[int][]byte             // relative seq -> a Sync Interest of P announcing it (active prefix)
+	syncsP  map[int][]byte             // the same under the passive prefix
+	nroutes map[string]map[uint64]bool // the neighbour's routes in R's forwarder, from R's register / unregister commands
+	fetches map[int][][]byte           // relative seq -> fetch Interests of R captured
 	datas   []advData
 	parked  []*advParked
 	gen     map[*table.NeighborState]int
@@ -193,8 +198,48 @@ func (x *advX) obs() map[string]any {
 	return o
 }
 
+// replays R's management commands for the three names that lead to the neighbour
+func (x *advX) replayCmds() [][]any {
+	kinds := map[string]string{
+		"/localhop/net/b/32=DV":                           "adv",
+		x.R.cfg.AdvertisementSyncPassivePrefix().String(): "sync",
+		x.R.cfg.PrefixTableSyncPrefix().String():          "pfx",
+	}
+	for _, c := range x.R.r.VerifDrainCmds() {
+		if c.Module != "rib" || c.Args == nil || c.Args.Name == nil || c.Args.FaceId == nil {
+			continue
+		}
+		k, ok := kinds[c.Args.Name.String()]
+		if !ok {
+			continue
+		}
+		if x.nroutes[k] == nil {
+			x.nroutes[k] = map[uint64]bool{}
+		}
+		if c.Cmd == "register" {
+			x.nroutes[k][*c.Args.FaceId] = true
+		} else if c.Cmd == "unregister" {
+			delete(x.nroutes[k], *c.Args.FaceId)
+		}
+	}
+	out := [][]any{}
+	for _, k := range []string{"adv", "pfx", "sync"} {
+		fs := []int{}
+		for f := range x.nroutes[k] {
+			fs = append(fs, int(f))
+		}
+		sort.Ints(fs)
+		for _, f := range fs {
+			out = append(out, []any{k, f})
+		}
+	}
+	return out
+}
+
 func (x *advX) emit(row map[string]any) {
-	row["obs"] = x.obs()
+	o := x.obs()
+	o["nroutes"] = x.replayCmds()
+	row["obs"] = o
 	if x.curAct != nil { // the action that produced this row (first row only): what a replay needs
 		row["act"] = *x.curAct
 		x.curAct = nil
@@ -202,7 +247,6 @@ func (x *advX) emit(row map[string]any) {
 	x.w.Emit(row)
 	x.events++
 	x.P.r.VerifDrainCmds()
-	x.R.r.VerifDrainCmds()
 }
 
 // collect drains both faces: Sync Interests and Data of P, fetch Interests of R (returned: the numbers fetched anew)
@@ -217,9 +261,13 @@ func (x *advX) collect() (fetched []int) {
 			continue
 		}
 		switch {
-		case p.Interest != nil && x.P.cfg.AdvertisementSyncActivePrefix().IsPrefix(p.Interest.NameV):
+		case p.Interest != nil && (x.P.cfg.AdvertisementSyncActivePrefix().IsPrefix(p.Interest.NameV) || x.P.cfg.AdvertisementSyncPassivePrefix().IsPrefix(p.Interest.NameV)):
 			if sv, err := svs_2024.ParseStateVectorAppParam(enc.NewWireReader(p.Interest.ApplicationParameters), true); err == nil && sv.StateVector != nil && len(sv.StateVector.Entries) == 1 {
-				x.syncs[x.rel(sv.StateVector.Entries[0].SeqNo)] = append([]byte(nil), b...)
+				if x.P.cfg.AdvertisementSyncActivePrefix().IsPrefix(p.Interest.NameV) {
+					x.syncs[x.rel(sv.StateVector.Entries[0].SeqNo)] = append([]byte(nil), b...)
+				} else {
+					x.syncsP[x.rel(sv.StateVector.Entries[0].SeqNo)] = append([]byte(nil), b...)
+				}
 			}
 		case p.Data != nil && x.P.cfg.AdvertisementDataPrefix().IsPrefix(p.Data.NameV):
 			n := p.Data.NameV
@@ -290,15 +338,21 @@ func (x *advX) step(a advAct) {
 		x.emit(map[string]any{"ev": "pbeat", "pseq": x.rel(x.P.r.VerifAdvertSeq()), "pcont": x.pcont})
 	case "rsync":
 		wire, ok := x.syncs[a.S]
+		if a.Pasv {
+			wire, ok = x.syncsP[a.S]
+		}
 		if !ok {
 			return
 		}
-		lp := &spec.Packet{LpPacket: &spec.LpPacket{IncomingFaceId: utils.IdPtr(uint64(7)), Fragment: enc.Wire{wire}}}
+		if a.Face == 0 {
+			a.Face = 7
+		}
+		lp := &spec.Packet{LpPacket: &spec.LpPacket{IncomingFaceId: utils.IdPtr(uint64(a.Face)), Fragment: enc.Wire{wire}}}
 		pe := spec.PacketEncoder{}
 		pe.Init(lp)
 		x.R.face.FeedPacket(pe.Encode(lp).Join())
 		synctest.Wait()
-		x.emit(map[string]any{"ev": "rsync", "s": a.S})
+		x.emit(map[string]any{"ev": "rsync", "s": a.S, "face": a.Face, "active": !a.Pasv})
 		time.Sleep(12 * time.Millisecond) // the debounce of advertDataFetch
 		synctest.Wait()
 		fetched := x.collect()
@@ -377,7 +431,7 @@ func genAdvAct(rng *rand.Rand, x *advX) advAct {
 	case k < 16:
 		return advAct{Ev: "pbeat"}
 	case k < 34:
-		return advAct{Ev: "rsync", S: pickS()}
+		return advAct{Ev: "rsync", S: pickS(), Face: []int{7, 7, 7, 8}[rng.Intn(4)], Pasv: rng.Intn(4) == 0}
 	case k < 50:
 		return advAct{Ev: "preply", S: pickS()}
 	case k < 70:
